@@ -110,6 +110,51 @@ theorem fractionalConstant_text {inp rest : Bytes} {l r : List Nat}
           simp [ht, hb', ht2]
       · cases h
 
+theorem digitSequence_lt {inp rest : Bytes} {ds : List Nat} (h : digitSequence inp = .ok (rest, ds)) :
+    ∀ d ∈ ds, d < 10 := (digitSequence_text h).2.2
+
+/-- the digits `fractional_constant` returns are decimal digits -/
+theorem fractionalConstant_lt {inp rest : Bytes} {l r : List Nat}
+    (h : fractionalConstant inp = .ok (rest, (l, r))) : (∀ d ∈ l, d < 10) ∧ (∀ d ∈ r, d < 10) := by
+  unfold fractionalConstant at h
+  dsimp only at h
+  cases hw : digitSequence inp with
+  | error e =>
+    simp only [hw, opt] at h
+    cases inp with
+    | nil => simp [otherTokenChars] at h
+    | cons b i2 =>
+      simp only at h
+      split at h
+      · split at h
+        · cases h
+        · rename_i i3 fr hfr
+          simp at h
+          obtain ⟨h1, h2, h3⟩ := h
+          subst h1 h2 h3
+          exact ⟨by simp, digitSequence_lt hfr⟩
+      · cases h
+  | ok p =>
+    obtain ⟨i1, whole⟩ := p
+    simp only [hw, opt] at h
+    cases i1 with
+    | nil => simp [otherTokenChars] at h
+    | cons b i2 =>
+      simp only at h
+      split at h
+      · simp at h
+        obtain ⟨h1, h2, h3⟩ := h
+        subst h2
+        refine ⟨digitSequence_lt hw, ?_⟩
+        cases hf : digitSequence i2 with
+        | error e => simp [hf] at h3; subst h3; simp
+        | ok q =>
+          obtain ⟨i3, fr⟩ := q
+          simp [hf] at h3
+          subst h3
+          exact digitSequence_lt hf
+      · cases h
+
 /-- the value bits a float token carries -/
 def Token.floatBits? : Token → Option Nat
   | .litFloat v | .litFloat64 v | .litFloat16 v | .litFloat32 v => some v
@@ -153,6 +198,32 @@ theorem floatMantissa_text {inp i2 : Bytes} {hf : Bool} {l r : List Nat}
       obtain ⟨h1, h2, h3, h4⟩ := h
       subst h1 h2 h3 h4
       simp [(digitSequence_text hd).1]
+
+theorem floatMantissa_lt {inp i2 : Bytes} {hf : Bool} {l r : List Nat}
+    (h : floatMantissa inp = .ok (i2, (hf, l, r))) : ∀ d ∈ l ++ r, d < 10 := by
+  unfold floatMantissa at h
+  dsimp only at h
+  cases hfc : fractionalConstant inp with
+  | ok p =>
+    obtain ⟨i1, l', r'⟩ := p
+    simp only [hfc, opt] at h
+    simp at h
+    obtain ⟨h1, h2, h3, h4⟩ := h
+    subst h1 h2 h3 h4
+    have := fractionalConstant_lt hfc
+    intro d hd
+    rcases List.mem_append.mp hd with hd | hd
+    · exact this.1 d hd
+    · exact this.2 d hd
+  | error e =>
+    simp only [hfc, opt] at h
+    split at h
+    · cases h
+    · rename_i i w hd
+      simp at h
+      obtain ⟨h1, h2, h3, h4⟩ := h
+      subst h1 h2 h3 h4
+      simpa using digitSequence_lt hd
 
 /-- what `literal_float` computes: the double nearest to `<left>.<right> × 10^exp` (or infinity for the `#INF`
 spelling on a non-zero literal without exponent), narrowed once when the suffix asks for it -/
